@@ -30,7 +30,7 @@ def handle : List Sx → Sx
     | some cfg, some segs =>
       if !cfg.Valid then Sx.oom else
       let segs := mergeTexts segs
-      .list [.atom "ok", .str (String.ofList (unparse cfg segs)), .list ((trimSpec cfg segs .nothing true).map encPiece)]
+      .list [.atom "ok", .str (String.ofList (unparse cfg segs)), .list ((documented cfg segs).map encPiece)]
     | _, _ => Sx.bad
   | _ => Sx.bad
 /-- request names served by this module (collected into `JinjaV.Wire.All` by tools/gen_wire_all.py) -/
